@@ -99,7 +99,8 @@ def runWrite (args : List String) : String :=
 
 /-- `fwriten <normal|exit> <mode:existing:writes:flushed>…` — several files open at once in one program (distinct paths:
 the files are independent, so each behaves as if it were alone, whatever the interleaving of the writes); a part
-flagged `1` is flushed explicitly before the program ends -/
+flagged `1` is flushed explicitly before the program ends; a part flagged `2` has its handle released (set to null) before the
+program ends — the file is closed by the drop, so the expected contents are the same as for `0` -/
 def runWriteN (args : List String) : String :=
   match args with
   | ending :: parts =>
